@@ -10,6 +10,7 @@ import Driver.OpsCov
 import Driver.OpsBuf
 import Driver.OpsSolver
 import Driver.OpsEquiv
+import Driver.OpsComb
 open Ibex Ibex.Proto
 
 def dispatch (op : String) (ins outs : List String) : String :=
@@ -41,6 +42,9 @@ def dispatch (op : String) (ins outs : List String) : String :=
   | some r => r
   | none =>
   match Ibex.Driver.opsEquiv op ins outs with
+  | some r => r
+  | none =>
+  match Ibex.Driver.opsComb op ins outs with
   | some r => r
   | none => "bad-op"
 
